@@ -10,14 +10,15 @@ cd $W
 git apply $SRC/patch.diff || { echo "$ID: patch does not apply"; git -C /repo worktree remove --force $W; exit 2; }
 T1=$(cargo test --workspace --no-fail-fast --offline -j 8 2>&1 | grep -E "^test result" | head -1)
 git apply $SRC/demo.diff || { echo "$ID: demo does not apply"; git -C /repo worktree remove --force $W; exit 2; }
-if ls $SRC/*.js >/dev/null 2>&1 && ! grep -q "seeded_demo" $SRC/demo.diff; then
-  D2=$(for f in $SRC/*.js; do node $(basename $f) >/dev/null 2>&1 && echo pass || echo FAIL; done | tr '\n' ' ')
+JSDEMO=$(grep -E '^\+\+\+ b/.*\.js$' $SRC/demo.diff | sed 's#^+++ b/##')
+if [ -n "$JSDEMO" ]; then
+  D2=$(for f in $JSDEMO; do node $f >/dev/null 2>&1 && echo pass || echo FAIL; done | tr '\n' ' ')
 else
   D2=$(cargo test seeded_demo --offline -j 8 2>&1 | grep -E "^test result" | tr '\n' ' ')
 fi
 git apply -R $SRC/patch.diff
-if ls $SRC/*.js >/dev/null 2>&1 && ! grep -q "seeded_demo" $SRC/demo.diff; then
-  D3=$(for f in $SRC/*.js; do node $(basename $f) >/dev/null 2>&1 && echo pass || echo FAIL; done | tr '\n' ' ')
+if [ -n "$JSDEMO" ]; then
+  D3=$(for f in $JSDEMO; do node $f >/dev/null 2>&1 && echo pass || echo FAIL; done | tr '\n' ' ')
 else
   D3=$(cargo test seeded_demo --offline -j 8 2>&1 | grep -E "^test result" | tr '\n' ' ')
 fi
